@@ -70,6 +70,22 @@ def gen_cases(tier, seed):
         orders = [list(ALL[int(rng.integers(len(ALL)))]) for _ in range(2)] + [[0, 0, 0], [1, 0, 1]]
         cases.append({"shells": shells, "orders": orders, "origin": [float(v) for v in np.array(shells[0]["c"]) + rng.normal(size=3) * [0.0, 0.01, 1.0][k % 3]], "transform": None, "shift": False,
                       "classes": classes + ["origin:" + ["center", "near", "off"][k % 3], "T:none", "ntriples:4"] + ["o:%d%d%d" % tuple(o) for o in orders], "cost": 60})
+    # a diffuse low-l shell and a tight high-l shell about one bohr apart (exponent ratio 1e3..1e6), in both list orders: two-centre
+    # recursions that run through the tight centre lose digits to cancellation there
+    for k in range(12 if tier == "quick" else 96):
+        rng = bases.rng_for("C07", seed, tier, "tight-vs-diffuse", k)
+        ld, lt = int(rng.integers(0, 3)), int(rng.integers(3, 5))
+        c0 = rng.normal(size=3)
+        u = rng.normal(size=3)
+        u /= np.linalg.norm(u)
+        dif = bases.rand_shell(rng, ld, center=c0, emin=0.02, emax=0.5, Kmax=2, Mmax=2)
+        tig = bases.rand_shell(rng, lt, center=c0 + u * float(rng.uniform(0.5, 1.5)), emin=bases.cap(lt) * [0.3, 30.0, 1000.0][k % 3], emax=bases.cap(lt) * [1.0, 300.0, 10000.0][k % 3], Kmax=2, Mmax=2)
+        for s_ in (dif, tig):
+            s_.pop("_cls")
+        shells = [dif, tig] if k % 2 == 0 else [tig, dif]
+        orders = [list(ALL[int(rng.integers(len(ALL)))]) for _ in range(2)] + [[0, 0, 0], [1, 1, 0]]
+        cases.append({"shells": shells, "orders": orders, "origin": [float(v) for v in c0 + rng.normal(size=3) * [0.0, 1.0][k % 2]], "transform": None, "shift": False,
+                      "classes": ["tight-high-l-vs-diffuse", "tight:" + ["within-range", "x30-300", "x1e3-1e4"][k % 3], "order:" + ("tight-second" if k % 2 == 0 else "tight-first"), "T:none", "ntriples:4"] + ["o:%d%d%d" % tuple(o) for o in orders], "cost": 60})
     cases += bases.dup_variants("C07", seed, tier, cases, 7, ok=lambda c: c.get("transform") is None)  # one shell listed twice as the same object
     cases += bases.argrep_variants("C07", seed, tier, cases, 6, ok=lambda c: "shells" in c and c.get("kind") in (None, "whole", "kernel", "perm", "real"))  # constructor arguments in other in-memory representations
     return cases
@@ -135,6 +151,18 @@ def run_case(case):
                         c *= math.comb(o[ax], kk[ax]) * (-d[ax]) ** (o[ax] - kk[ax])
                     acc += c * low[:, :, n_]
                     mag += abs(c) * np.abs(low[:, :, n_])
+                if T is not None:
+                    # a transformed orbital may vanish identically (FA19): then every term of the relation is rounding noise of the
+                    # untransformed terms, which set the floor of the yardstick
+                    low0 = cm.call(moment_integral, cm.build(shells), origin.copy(), np.array(lower, dtype=int))
+                    if isinstance(low0, np.ndarray) and low0.shape[2] == len(lower):
+                        mag0 = np.zeros(low0.shape[:2])
+                        for n_, kk in enumerate(lower):
+                            c = 1.0
+                            for ax in range(3):
+                                c *= math.comb(o[ax], kk[ax]) * (-d[ax]) ** (o[ax] - kk[ax])
+                            mag0 += abs(c) * np.abs(low0[:, :, n_])
+                        mag = mag + 1e-4 * (np.abs(T) @ mag0 @ np.abs(T).T)
                 e, at = cm.maxerr(new[:, :, 0], acc, mag + 1e-4 * mag.max() + 1e-300)
                 errs["binomial_shift"] = e
                 evals += 1
